@@ -57,6 +57,8 @@ type BulkCase struct {
 	Tracers int  `json:"tracers"`  // distinct tracer scopes obtained before installation
 	TVar    int  `json:"tvar"`     // how the tracer scopes differ: 0 name, 1 version, 2 schema URL, 3 attribute, 4 a mix of the four
 	TVia    bool `json:"tvia"`     // through a handle from otel.GetTracerProvider() (else otel.Tracer)
+	TSrc    int  `json:"tsrc,omitempty"` // 0: as TVia says; 1 / 2: all tracers come from the provider handle of a span started before installation through otel.Tracer("bootstrap"): 1 = the span value's TracerProvider(), 2 = trace.SpanFromContext(the context Start returned).TracerProvider()
+	TPar    int  `json:"tpar,omitempty"` // TSrc 1, 2: the context that span is started with (Op.Pk 0..3: background / valid remote / valid local / not valid span context)
 	TTwice  bool `json:"ttwice"`   // every tracer scope is asked for twice, both handles are used afterwards
 	Meters  int  `json:"meters"`   // distinct meter scopes obtained before installation
 	MVar    int  `json:"mvar"`     // like TVar
@@ -344,6 +346,24 @@ func runBulk(c BulkCase) ([]vk.Violation, vk.Info) {
 	var tprov trace.TracerProvider
 	if c.TVia {
 		tprov = otel.GetTracerProvider()
+	}
+	if c.TSrc == 1 || c.TSrc == 2 {
+		// the provider handle a library finds on a span (or in the context) it
+		// was handed before installation
+		ctx := context.Background()
+		switch pk := ((c.TPar % 4) + 4) % 4; pk {
+		case 1:
+			ctx = trace.ContextWithRemoteSpanContext(ctx, genParent(pk, 1, 1))
+		case 2, 3:
+			ctx = trace.ContextWithSpanContext(ctx, genParent(pk, 0, 1))
+		}
+		ctx2, bs := otel.Tracer("bootstrap").Start(ctx, "bootstrap")
+		if c.TSrc == 2 {
+			tprov = trace.SpanFromContext(ctx2).TracerProvider()
+		} else {
+			tprov = bs.TracerProvider()
+		}
+		bs.End()
 	}
 	getTracer := func(s bulkScope) trace.Tracer {
 		if tprov != nil {
@@ -657,6 +677,16 @@ func runBulk(c BulkCase) ([]vk.Violation, vk.Info) {
 	info.Class("callbacks:" + size(nC))
 	info.Class("late:" + size(nL))
 	info.Class(fmt.Sprintf("tracer_scopes_differ_by:%d", c.TVar))
+	switch {
+	case c.TSrc == 1:
+		info.Class("tracers_via:span_value.TracerProvider():span_started_with=" + parentKinds[((c.TPar%4)+4)%4])
+	case c.TSrc == 2:
+		info.Class("tracers_via:SpanFromContext(returned_context).TracerProvider():span_started_with=" + parentKinds[((c.TPar%4)+4)%4])
+	case c.TVia:
+		info.Class("tracers_via:provider_handle")
+	default:
+		info.Class("tracers_via:otel.Tracer")
+	}
 	info.Class(fmt.Sprintf("meter_scopes_differ_by:%d", c.MVar))
 	info.Class(fmt.Sprintf("instrument_spread:%d", c.Spread))
 	maxPerMeter := 0
@@ -697,6 +727,9 @@ func genBulk(t *rapid.T) BulkCase {
 		NatObs: rapid.IntRange(0, 3).Draw(t, "native_observables") == 0, TPFirst: rapid.Bool().Draw(t, "tp_first"),
 		TTwice: rapid.IntRange(0, 3).Draw(t, "tracer_twice") == 0,
 	}
+	if rapid.Bool().Draw(t, "tracers_from_span_provider") {
+		c.TSrc, c.TPar = rapid.IntRange(1, 2).Draw(t, "tracer_source"), rapid.SampledFrom([]int{0, 0, 1, 2, 3}).Draw(t, "bootstrap_context")
+	}
 	// one or two dimensions are large (log-scale up to tens of thousands), the
 	// others stay small: the cost of a case is bounded by its largest table
 	big := rapid.IntRange(0, 4).Draw(t, "big_dimension")
@@ -735,7 +768,7 @@ func genBulk(t *rapid.T) BulkCase {
 func TestManyHandles(t *testing.T) {
 	vk.Run(t, vk.Spec[BulkCase]{
 		Property: "C16", Check: "many_handles",
-		Rule: "generated NUMBERS of handles obtained through the public otel API before the SDK is installed: distinct tracer scopes, distinct meter scopes, instruments (kinds cyclic from a generated offset; all on one meter / round robin / half on the last meter / round robin from the last meter backwards) and RegisterCallback registrations, each count log-scale from 16 to 32767 (tracers, meters) / 16383 (instruments, callbacks) in one or two generated 'large' dimensions and 0 to 63 in the others; scopes differ by name / version / schema URL / attribute / a mix; through otel.Tracer / otel.Meter or a provider handle; every tracer scope optionally asked for twice; observable instruments optionally obtained directly from the SDK (placeholder meters without placeholder instruments); every n-th callback unregistered before installation; 0-511 more tracers / instruments / meters obtained by a second goroutine while SetTracerProvider / SetMeterProvider (either order) run; afterwards every handle is used once (span, measurement), a collection, half of the callbacks unregistered through their pre-install Registration, a second collection; " +
+		Rule: "generated NUMBERS of handles obtained through the public otel API before the SDK is installed: distinct tracer scopes, distinct meter scopes, instruments (kinds cyclic from a generated offset; all on one meter / round robin / half on the last meter / round robin from the last meter backwards) and RegisterCallback registrations, each count log-scale from 16 to 32767 (tracers, meters) / 16383 (instruments, callbacks) in one or two generated 'large' dimensions and 0 to 63 in the others; scopes differ by name / version / schema URL / attribute / a mix; through otel.Tracer / otel.Meter or a provider handle (tracers in half of the programs through the provider handle of a span started before installation: the span value's TracerProvider() or trace.SpanFromContext(returned context).TracerProvider(), that span started with a background / valid remote / valid local / not valid span context); every tracer scope optionally asked for twice; observable instruments optionally obtained directly from the SDK (placeholder meters without placeholder instruments); every n-th callback unregistered before installation; 0-511 more tracers / instruments / meters obtained by a second goroutine while SetTracerProvider / SetMeterProvider (either order) run; afterwards every handle is used once (span, measurement), a collection, half of the callbacks unregistered through their pre-install Registration, a second collection; " +
 			"non-trivial = at least 64 handles obtained before the installation; distinct = distinct case encodings",
 		Quick: 40, Thorough: 600,
 		Gen: genBulk, Run: runBulk, Repeat: 3,
